@@ -42,7 +42,15 @@ fn variant_of(k: usize, quick: bool) -> usize {
     if quick { [0, 3, 5, 6].get(k).copied().unwrap_or(usize::MAX) } else { k }
 }
 
+const TRAPPED: [&str; 4] = ["KILL \"NOSUCH.FIL\"", "ZS9$ = LEFT$(\"a\", -1)", "ZQ9% = 1 / ZERO9%", "OPEN \"NOSUCH.FIL\" FOR INPUT AS #3"];
+
 fn check(c: &Case, quick: bool, far: (u32, u32)) -> Result<String, (String, String, String)> {
+    check_hist(c, quick, far, None)
+}
+
+/// `trapped`: a statement that fails and is trapped (ON ERROR GOTO at the top of the module, RESUME NEXT) stands right
+/// before the injected statement, followed by ON ERROR GOTO 0: the report of the injected fault must be the same.
+fn check_hist(c: &Case, quick: bool, far: (u32, u32), trapped: Option<usize>) -> Result<String, (String, String, String)> {
     let ls = layouts(quick);
     let (lname, layout) = &ls[c.layout];
     let (kind, raw) = FAULTS[c.fault];
@@ -87,6 +95,60 @@ fn check(c: &Case, quick: bool, far: (u32, u32)) -> Result<String, (String, Stri
         pos.col_last += shift;
         printed.text = out;
     }
+    // rows of the original text -> rows of the text that is run
+    let mut inserted_before: Vec<u32> = vec![]; // a line inserted before original row r
+    if let Some(t) = trapped {
+        if far != (0, 0) {
+            return Err(("machinery".into(), "history and far are exclusive".into(), String::new()));
+        }
+        if !line.trim().eq_ignore_ascii_case(raw) {
+            return Ok("not-generated:the statement shares its line".into());
+        }
+        let eol = layout.eol;
+        let lines_now = split_lines(&printed.text);
+        // the handler goes before the first subprogram (or at the end of the text)
+        let first_sub = lines_now.iter().position(|l| {
+            let u = l.trim_start().to_ascii_uppercase();
+            u.starts_with("SUB ") || u.starts_with("FUNCTION ")
+        });
+        let mut out = String::new();
+        out.push_str("ON ERROR GOTO Trap9");
+        out.push_str(eol);
+        inserted_before.push(1);
+        for (i, l) in lines_now.iter().enumerate() {
+            let row = i as u32 + 1;
+            if Some(i) == first_sub {
+                for h in ["END", "Trap9:", "RESUME NEXT"] {
+                    out.push_str(h);
+                    out.push_str(eol);
+                    inserted_before.push(row);
+                }
+            }
+            if row == pos.row {
+                let indent: String = l.chars().take_while(|ch| *ch == ' ' || *ch == '\t').collect();
+                for h in [TRAPPED[t], "ON ERROR GOTO 0"] {
+                    out.push_str(&indent);
+                    out.push_str(h);
+                    out.push_str(eol);
+                    inserted_before.push(row);
+                }
+            }
+            out.push_str(l);
+            out.push_str(eol);
+        }
+        if first_sub.is_none() {
+            for h in ["END", "Trap9:", "RESUME NEXT"] {
+                out.push_str(h);
+                out.push_str(eol);
+            }
+        }
+        printed.text = out;
+    }
+    let map_row = |r: u32| -> u32 { r + far.0 + inserted_before.iter().filter(|b| **b <= r).count() as u32 };
+    let orig_row = pos.row;
+    if trapped.is_some() {
+        pos.row = map_row(orig_row);
+    }
     if far.0 > 0 {
         let eol = layout.eol;
         let mut pre = String::with_capacity(far.0 as usize * 3);
@@ -100,7 +162,7 @@ fn check(c: &Case, quick: bool, far: (u32, u32)) -> Result<String, (String, Stri
         pos.row += far.0;
     }
     let o = run_pipeline(&printed.text, &RunOpts { budget: 300_000, ..RunOpts::default() });
-    let label = format!("{} `{}` at {} (variant {}, layout {}{})", kind, raw, b.site_desc, c.variant, lname, if far != (0, 0) { format!(", moved down {} rows and right {} columns", far.0, far.1) } else { String::new() });
+    let label = format!("{} `{}` at {} (variant {}, layout {}{})", kind, raw, b.site_desc, c.variant, lname, if far != (0, 0) { format!(", moved down {} rows and right {} columns", far.0, far.1) } else if let Some(t) = trapped { format!(", after the trapped failure of `{}`", TRAPPED[t]) } else { String::new() });
     let (family, row, col, stack): (&str, u32, u32, Option<Vec<u32>>) = match &o.end {
         End::ParseError { row, col, .. } => ("parse", *row, *col, None),
         End::LintError { row, col, .. } => ("lint", *row, *col, None),
@@ -143,7 +205,7 @@ fn check(c: &Case, quick: bool, far: (u32, u32)) -> Result<String, (String, Stri
         let mut want = vec![pos.row];
         for id in &b.chain {
             match printed.pos.get(id) {
-                Some(p) => want.push(p.row + far.0),
+                Some(p) => want.push(map_row(p.row)),
                 None => return Err(("machinery".into(), "no position for a call site".into(), printed.text)),
             }
         }
@@ -222,6 +284,30 @@ pub fn worker(case: &Value) -> Value {
             n += check_unterminated(&label, &lines, &mut hist, &mut bads, case.clone());
         }
         bads.truncate(30);
+        return json!({"n": n, "nontrivial": n, "hist": hist, "bad": bads});
+    }
+    if let Some(t) = case["trapped"].as_u64() {
+        let mut hist: BTreeMap<String, u64> = BTreeMap::new();
+        let mut bads = vec![];
+        let mut n = 0;
+        for site in 0..total_sites() {
+            let c = Case { variant: case["variant"].as_u64().unwrap_or(0) as usize, site, fault: case["fault"].as_u64().unwrap_or(0) as usize, layout: case["layout"].as_u64().unwrap_or(0) as usize };
+            match check_hist(&c, quick, (0, 0), Some(t as usize)) {
+                Ok(k) if k.starts_with("not-generated") => *hist.entry(k).or_insert(0) += 1,
+                Ok(k) => {
+                    n += 1;
+                    *hist.entry(format!("located after a trapped failure:{}", k)).or_insert(0) += 1
+                }
+                Err((class, msg, _)) if class == "machinery" => return json!({"machinery": msg}),
+                Err((class, msg, text)) => {
+                    n += 1;
+                    *hist.entry("differ".into()).or_insert(0) += 1;
+                    if bads.len() < 20 {
+                        bads.push(json!({"sig": format!("C11|history|{}", class), "summary": msg, "text": text, "case": case.clone()}));
+                    }
+                }
+            }
+        }
         return json!({"n": n, "nontrivial": n, "hist": hist, "bad": bads});
     }
     if let Some(far) = case["far"].as_array() {
@@ -315,6 +401,20 @@ pub fn drive(tier: &str) -> i32 {
             }
         }
     }
+    // history: a trapped failure right before the injected run-time fault
+    {
+        let runtime_faults: Vec<usize> = (0..FAULTS.len()).filter(|f| matches!(FAULTS[*f].0, "division by zero" | "subscript out of range" | "overflow")).collect();
+        for v in 0..variants {
+            for (fi, f) in runtime_faults.iter().enumerate() {
+                if quick && fi % 2 == 1 {
+                    continue;
+                }
+                for t in 0..TRAPPED.len() {
+                    cases.push(json!({"quick": quick, "trapped": t, "variant": variant_of(v, quick), "fault": f, "layout": (v + fi + t) % 3 * (nl / 3)}));
+                }
+            }
+        }
+    }
     let total_cases = cases.len();
     let cap = run.wall_cap_s;
     let t0 = run.reporter.start;
@@ -324,7 +424,7 @@ pub fn drive(tier: &str) -> i32 {
         run.capped = true;
     }
     let mut ev = Evidence::new("exploration");
-    ev.set("rule", "base programs (IF > FOR > SELECT and WHILE > DO at module level; SUB Outer -> SUB Inner -> FUNCTION Deep% called from inside blocks; 8 variants: NEXT with / without counter, DO forms, textual order of the subprograms, ordinary / STATIC subprograms) x every injection site (first / inner / last statement of the module, of every block and of every subprogram, single-line IF bodies; call depth 0..3) x 16 fault statements of 7 kinds (syntax, type mismatch, undefined label, argument count, division by zero, subscript out of range, overflow) x layouts (LF / CR LF / CR x blank lines x trailing comments x colon-joined statements x keyword case x indentation). Oracle: the printer's position map (self-checked against the text): stage and kind of the error, row = row of the injected statement, column inside its text (syntax errors: up to two columns after it), and for run-time errors the rows of the active call sites, innermost first. far: the same programs pushed down by 65 535 / 65 536 (thorough also 254, 65 534, 70 001) comment and blank lines and / or pushed right by a string assignment of 256 / 65 536 (thorough also 255, 257, 65 535, 70 001) columns on the line of the injected statement — rows, columns and call-site rows must follow. unterminated: every base program with one closing line (NEXT, WEND, LOOP, END IF, END SELECT, END SUB, END FUNCTION) removed, under LF / CR LF / CR line ends with and without a final line end: a syntax error whose row and column are the same under the three conventions and lie inside the text or immediately at its end.");
+    ev.set("rule", "base programs (IF > FOR > SELECT and WHILE > DO at module level; SUB Outer -> SUB Inner -> FUNCTION Deep% called from inside blocks; 8 variants: NEXT with / without counter, DO forms, textual order of the subprograms, ordinary / STATIC subprograms) x every injection site (first / inner / last statement of the module, of every block and of every subprogram, single-line IF bodies; call depth 0..3) x 16 fault statements of 7 kinds (syntax, type mismatch, undefined label, argument count, division by zero, subscript out of range, overflow) x layouts (LF / CR LF / CR x blank lines x trailing comments x colon-joined statements x keyword case x indentation). Oracle: the printer's position map (self-checked against the text): stage and kind of the error, row = row of the injected statement, column inside its text (syntax errors: up to two columns after it), and for run-time errors the rows of the active call sites, innermost first. far: the same programs pushed down by 65 535 / 65 536 (thorough also 254, 65 534, 70 001) comment and blank lines and / or pushed right by a string assignment of 256 / 65 536 (thorough also 255, 257, 65 535, 70 001) columns on the line of the injected statement — rows, columns and call-site rows must follow. history: at every site a statement that fails and is trapped (KILL / OPEN of a missing file, LEFT$ with a negative count, a division by zero; ON ERROR GOTO at the top of the module, RESUME NEXT) stands right before the injected run-time fault, followed by ON ERROR GOTO 0: the fault is reported with the same row, column and call-site rows as without that history. unterminated: every base program with one closing line (NEXT, WEND, LOOP, END IF, END SELECT, END SUB, END FUNCTION) removed, under LF / CR LF / CR line ends with and without a final line end: a syntax error whose row and column are the same under the three conventions and lie inside the text or immediately at its end.");
     ev.set("exhaustive", !run.capped);
     ev.set("plan", json!({"variants": variants, "sites": sites, "faults": FAULTS.len(), "layouts": nl, "programs": total, "far_programs": far_programs}));
     ev.set("distinct_nontrivial", run.nontrivial);
